@@ -12,10 +12,14 @@ theorem appendInt_bounds :
 theorem decode_bounds :
     T1Ops.decodeOpTests = [">= 32", "<= 246", ">= 247", "<= 250", ">= 251", "<= 254", "== 255", "== 12"] := rfl
 
+/-- the decoder checks that 2 (two-byte numbers, escape operator) resp. 5 bytes (32-bit number) are left before it
+    reads them: the guards of `Model/T1Decode.lean` -/
+theorem decode_len_guards : T1Ops.decodeLenTests = ["> 0", "< 2", "< 2", "< 5", "< 2"] := rfl
+
 theorem approx_max_q : Consts.t1_appendNumberQTests = ["<= 107"] := rfl
 
 theorem t1_limits : Consts.t1_maxStack = some 24 ∧ Consts.t1_callDepthTests = ["> 0", "> 10"] ∧
-    Consts.t1_readShortCipherTests = ["< 4"] := ⟨rfl, rfl, rfl⟩
+    Consts.t1_readShortCipherTests = ["< int(lenIV)"] := ⟨rfl, rfl, rfl⟩
 
 theorem t1_opcodes : T1Ops.ops =
     [("t1callothersubr", 3088), ("t1callsubr", 10), ("t1closepath", 9), ("t1div", 3084), ("t1dotsection", 3072),
